@@ -82,6 +82,19 @@ def cases(tier, seed):
         for vi, var in enumerate(G.PARAM_VARIANTS):
             for ctl in ("DistanceRatio", "Exact"):
                 out.append({"t": "A", "spec": spec, "cfg": {"control": ctl, "iteration_limit": HORIZON[tier], "pv": vi}, "sc": G.scalings_of(spec, (0, 1))[vi % 2]})
+    # (A6) unvalidated input on every row-kind tuple (slack-free problems with right-hand sides, three interleaved rows)
+    vi_nv = next(i for i, v in enumerate(G.PARAM_VARIANTS) if v == {"validate_input": False})
+    for rows in ([("affine", "eqoff")], [("affine", "eqoff"), ("sphere", "eqoff")], [("affine", "eq0"), ("bilinear", "eqoff")],
+                 [("affine", "eqoff"), ("sphere", "lower"), ("bilinear", "upper")], [("affine", "ranged"), ("sphere", "eqoff"), ("bilinear", "upper")]):
+        for vk in (["free", "free"], ["boxed", "lower"]):
+            for obj in ("qdiag", "qfull"):
+                spec = S.mk(2, obj, rows, vk, x0_idx=1)
+                for pv in (vi_nv, None):
+                    for sc in G.scalings_of(spec, (0, 1)):
+                        cfg = {"iteration_limit": HORIZON[tier]}
+                        if pv is not None:
+                            cfg["pv"] = pv
+                        out.append({"t": "A", "spec": spec, "cfg": cfg, "sc": sc})
     # (B)
     cfgs = G.configs_pairs() if tier == "quick" else G.configs_full()
     specsB = G.core_specs()
